@@ -3,3 +3,217 @@ import GM
 import VM
 import VD
 import TH
+/-! # The property theorems C01 … C20
+
+Only statements live here (each proved by the named lemma of the model libraries), so that they
+cannot be weakened silently while a proof is being repaired.  `…_partial` marks a theorem that
+covers only part of the property; the missing part is written next to it.  Each group ends with a
+non-vacuity `example`: a concrete, non-trivial state that satisfies the hypotheses.
+
+Conventions: traces are newest-first; *start* = dispatch / inline entry; *finish* = completion
+observed by the scheduler (a node's real running interval lies inside [start, finish]). -/
+
+namespace Props
+open TM
+
+/-! ## Scheduler properties (model: `TM.Step`, all 19 constructors; environment's completion choices,
+    tie-breaking, activeness and failure of nodes are adversarial) -/
+
+/-- C02: when a node starts, every dependency that takes part in the execution has finished or was deactivated. -/
+theorem C02_deps_before_start (cfg : Cfg) (hnd : cfg.nodes.Nodup) {tr s} (hr : Run cfg tr s) :
+    ∀ post l pre, tr = post ++ l :: pre → ∀ n, l.start = some n →
+      ∀ p ∈ cfg.preds n, p ∈ cfg.nodes → p ∈ fins pre ∨ p ∈ skips pre :=
+  TM.C02_deps_before_start cfg hnd hr
+
+/-- C03: no node starts twice (also in runs that fail). -/
+theorem C03_start_at_most_once (cfg : Cfg) (hnd : cfg.nodes.Nodup) {tr s} (hr : Run cfg tr s) :
+    (starts tr).Nodup := TM.C03_start_at_most_once cfg hnd hr
+
+/-- C03: only selected nodes start. -/
+theorem C03_only_selected (cfg : Cfg) (hnd : cfg.nodes.Nodup) {tr s} (hr : Run cfg tr s) :
+    ∀ n ∈ starts tr, n ∈ cfg.nodes := TM.C03_only_selected cfg hnd hr
+
+/-- C03: at normal return every selected active node started exactly once, every inactive one never. -/
+theorem C03_exactly_once_at_done (cfg : Cfg) (hnd : cfg.nodes.Nodup) {tr s} (hr : Run cfg tr s)
+    (hd : s.pc = .done) : ∀ n ∈ cfg.nodes,
+      (cfg.active n = true → (starts tr).count n = 1 ∧ n ∉ skips tr) ∧
+      (cfg.active n = false → n ∉ starts tr ∧ (skips tr).count n = 1) :=
+  TM.C03_exactly_once_at_done cfg hnd hr hd
+
+/-- C04: never more than `max_concurrency` pooled nodes in flight. -/
+theorem C04_inflight_le_maxc (cfg : Cfg) (hm : 0 < cfg.maxc) {tr s} (hr : Run cfg tr s) :
+    s.conc.length + s.asyn.length ≤ cfg.maxc := TM.C04_inflight_le_maxc cfg hm hr
+
+/-- C05: a node starts only while no sequential node is in flight; a sequential node only when nothing is. -/
+theorem C05_sequential_exclusive (cfg : Cfg) {tr s l s'} (hr : Run cfg tr s) (hs : Step cfg s l s')
+    {n} (hl : l.start = some n) :
+    (∀ m ∈ s.flight, cfg.seq m = false) ∧ (cfg.seq n = true → s.flight = []) :=
+  TM.C05_sequential_exclusive cfg hr hs hl
+
+/-- C06: the node that starts (or is skipped) is ready and no ready node has a greater compound
+    priority — "ready" stated independently of the scheduler's own `runnable` variable. -/
+theorem C06_best_ready (cfg : Cfg) (hnd : cfg.nodes.Nodup) {tr s l s'} (hr : Run cfg tr s)
+    (hs : Step cfg s l s') {n} (hl : l.start = some n ∨ l = .skip n) :
+    (isRoot cfg s.graph n ∧ n ∉ s.flight) ∧
+    ∀ m, isRoot cfg s.graph m → m ∉ s.flight → cfg.cp m ≤ cfg.cp n :=
+  TM.C06_best_ready cfg hnd hr hs hl
+
+/-- C08 (partial): whenever the scheduler blocks, the blocking condition holds — for DAGs that do not
+    mix thread and async-thread nodes.  The full statement (no hypothesis `hone`) is FALSE for the
+    code as it is: see `C08_mixed_witness`; that is the recorded known finding. -/
+theorem C08_partial (cfg : Cfg) (hone : NoAsync cfg ∨ NoThread cfg) {tr s s'} (hr : Run cfg tr s)
+    {k m D} (hs : Step cfg s (.wait k m D) s') : BlockOK cfg s := TM.C08_partial cfg hone hr hs
+
+/-- C08, negation witness: a reachable state of a mixed-resource DAG from which the scheduler blocks
+    although a slot is free, a node is ready and nothing is sequential. -/
+theorem C08_mixed_witness :
+    Run wcfg [.wait .asyn .first [0], .tau, .dispatch 1 .conc, .tau, .dispatch 0 .asyn, .tau] w6 ∧
+    (∃ s', Step wcfg w6 (.wait .conc .first [1]) s') ∧ ¬ BlockOK wcfg w6 :=
+  ⟨TM.w_run, TM.w_blocks, TM.C08_mixed_witness⟩
+
+/-- C09: every run is finite, with an explicit bound (no infinite execution, no spinning). -/
+theorem C09_bound (cfg : Cfg) (hnd : cfg.nodes.Nodup) (hac : Acyclic cfg) (hm : 0 < cfg.maxc)
+    {tr s} (hr : Run cfg tr s) : tr.length ≤ 32 * cfg.nodes.length + 12 := TM.C09_bound cfg hnd hac hm hr
+
+/-- C09: no reachable live state is stuck (no deadlock), whatever the environment chooses. -/
+theorem C09_progress (cfg : Cfg) (hnd : cfg.nodes.Nodup) {tr s} (hr : Run cfg tr s) (hlive : s.pc.live = true) :
+    ∃ l s', Step cfg s l s' := TM.C09_progress cfg hnd hr hlive
+
+/-- C14: after a failure nothing happens any more. -/
+theorem C14_err_terminal {cfg : Cfg} {s l s'} (e : Node) (h : s.pc = .err e) : ¬ Step cfg s l s' :=
+  TM.C14_err_terminal e h
+
+/-- C14: the run fails only because a started, active node failed (no internal error state). -/
+theorem C14_err_is_node_failure (cfg : Cfg) (hnd : cfg.nodes.Nodup) {tr s} (hr : Run cfg tr s)
+    (e : Node) (h : s.pc = .err e) : cfg.fails e = true ∧ e ∈ starts tr ∧ cfg.active e = true :=
+  TM.C14_err_is_node_failure cfg hnd hr e h
+
+/-- C14: every dependency of a started node finished *successfully* or was deactivated — so no direct
+    or (along a path) transitive dependent of a failed node ever starts. -/
+theorem C14_no_dependent_of_failed (cfg : Cfg) (hnd : cfg.nodes.Nodup) {tr s} (hr : Run cfg tr s) :
+    ∀ post l pre, tr = post ++ l :: pre → ∀ n, l.start = some n →
+      ∀ p ∈ cfg.preds n, p ∈ cfg.nodes →
+        (cfg.fails p = false ∧ p ∈ fins pre) ∨ (cfg.active p = false ∧ p ∈ skips pre) :=
+  TM.C14_no_dependent_of_failed cfg hnd hr
+
+/-- C17(c) (partial): without thread-resource nodes the scheduler never executes the wait that blocks
+    the event loop.  With mixed resources it does (`C17c_mixed_witness`): known finding. -/
+theorem C17c_partial (cfg : Cfg) (hnt : NoThread cfg) {tr s s'} (hr : Run cfg tr s) {m D}
+    (hs : Step cfg s (.wait .conc m D) s') : False := TM.C17c_partial cfg hnt hr hs
+
+theorem C17c_mixed_witness : (∃ s', Step lcfg l6 (.wait .conc .first [2]) s') ∧ l6.asyn ≠ [] :=
+  TM.C17c_mixed_witness
+
+/-- the acceptor's successor function only offers real steps: an accepted trace is a `Run` -/
+theorem acceptor_sound (cfg : Cfg) (s : St) (l : Label) (s' : St) (h : s' ∈ next cfg s l) : Step cfg s l s' :=
+  TM.next_sound cfg s l s' h
+
+-- non-vacuity: a concrete configuration with a run of six steps meets every hypothesis above
+example : wcfg.nodes.Nodup ∧ 0 < wcfg.maxc ∧ Acyclic wcfg ∧
+    Run wcfg [.wait .asyn .first [0], .tau, .dispatch 1 .conc, .tau, .dispatch 0 .asyn, .tau] w6 :=
+  ⟨by decide, by decide, ⟨fun _ => 0, fun n p hp => by simp [wcfg] at hp⟩, TM.w_run⟩
+
+/-! ## Graph properties -/
+open GM
+
+/-- C07: compound priority = own + each distinct descendant once, for every duplicate-free enumeration
+    of the descendant set (hence independent of set iteration order / hash seed). -/
+theorem C07_cp_is_own_plus_distinct_descendants (g : G) (hnd : g.nodes.Nodup)
+    (ht : TopoL g.preds g.nodes) (prio : GM.Node → Int) (n : GM.Node) (hn : n ∈ g.nodes)
+    (L : List GM.Node) (hL : L.Nodup) (hmem : ∀ x, x ∈ L ↔ Reach g n x) :
+    cpAll g prio n = prio n + (L.map prio).sum :=
+  GM.C07_cp_is_own_plus_distinct_descendants g hnd ht prio n hn L hL hmem
+
+/-- C07 (history): the epoch algorithm of the pinned code was not this function (fixed in 808e982). -/
+theorem C07_pinned_counts_paths :
+    pinnedCP diamond (fun _ s => s) (fun n => match n with | 0 => 1 | 1 => 10 | 2 => 100 | _ => 1000) 0 ≠
+    cpAll diamond (fun n => match n with | 0 => 1 | 1 => 10 | 2 => 100 | _ => 1000) 0 :=
+  GM.C07_pinned_counts_paths
+
+/-- C12: the executable three-step selection (roots, then exclusion in the graph left by the roots,
+    then targets in the graph left by the exclusion) is exactly the documented closure over the
+    full graph, under the property's precondition. -/
+theorem C12_selection_is_closure (g : G) (hnd : g.nodes.Nodup) (ht : TopoL g.preds g.nodes) (R X T : List GM.Node)
+    (hR : ∀ r ∈ R, r ∈ g.nodes)
+    (hX : ∀ q ∈ X, q ∈ (g1Of g (some R)).nodes)
+    (hT : ∀ t ∈ T, t ∈ (g2Of g (some R) (some X)).nodes) (x : GM.Node) :
+    x ∈ selectNodes g (some R) (some X) (some T) ↔
+      (inR g R x ∧ ¬ (x ∈ X ∨ ∃ q ∈ X, Reach g q x) ∧ (x ∈ T ∨ ∃ t ∈ T, Reach g x t)) :=
+  GM.selectNodes_spec g hnd ht R X T hR hX hT x
+
+/-- C13 (flag off): no debug node survives, for every selection. -/
+theorem C13_flag_off_no_debug (g : G) (isDebug : GM.Node → Bool) (sel leaves : List GM.Node) (x : GM.Node)
+    (hx : x ∈ extendDebug g isDebug sel leaves false) : isDebug x = false :=
+  GM.C13_flag_off_no_debug g isDebug sel leaves x hx
+
+/-- C13 (flag on): whatever is pulled in besides the selection is a debug node all of whose inputs are in the run. -/
+theorem C13_pulled_debug_has_inputs (g : G) (isDebug : GM.Node → Bool) (sel leaves : List GM.Node)
+    (hl : ∀ x ∈ leaves, x ∈ sel) (x : GM.Node) (hx : x ∈ extendDebug g isDebug sel leaves true) (hns : x ∉ sel) :
+    isDebug x = true ∧ ∀ p ∈ g.predsIn x, p ∈ extendDebug g isDebug sel leaves true :=
+  GM.C13_pulled_debug_has_inputs g isDebug sel leaves hl x hx hns
+
+example : diamond.nodes.Nodup ∧ cpAll diamond (fun n => match n with | 0 => 1 | 1 => 10 | 2 => 100 | _ => 1000) 0 = 1111 ∧
+    selectNodes diamond (some [0]) (some [1]) (some [2]) = [0, 2] := by decide
+
+/-! ## Value properties -/
+open VM
+
+/-- C01 / C02 (values), core: every execution that returns has computed, on every node, the sequential
+    denotation of the table — for every priority / sequential / resource assignment (`a`), every
+    `max_concurrency` and every completion order (all inside `VRun`). -/
+theorem C01_core {V : Type} [PyVal V] (c : ECfg V) (a : Attrs) (hwf : WF c) {tr vs} (hv : VRun c a tr vs)
+    (hd : vs.st.pc = .done) : ∀ n, vs.ρ n = den c n := VM.C01_core c a hwf hv hd
+
+/-- C01 (partial: flat fragment — positional / keyword / constant arguments, key paths, flags of every
+    form; nested calls and `unpack_to` are in the executable model `VM/Prog.lean` and tied by
+    differential runs only): if plain sequential evaluation of the body succeeds, every returning
+    execution of the traced DAG gives every variable exactly the plain value. -/
+theorem C01_flat_partial {V : Type} [PyVal V] (interp : Interp V) (params : List V) (body : List (Call V))
+    (valsF : List V) (hev : evalBody interp body params = .ok valsF) (a : Attrs) {tr : List Label} {vs : VSt V}
+    (hrun : VRun ((traceBody (initState params) body).cfg interp) a tr vs) (hdone : vs.st.pc = .done) :
+    ∀ (i : Nat) (r : Ref), (traceBody (initState params) body).env[i]? = some r →
+      ∃ v, valsF[i]? = some v ∧ resolve vs.ρ r = .ok v :=
+  VM.C01_flat interp params body valsF hev a hrun hdone
+
+/-- C11: over any history of successful operations on one instance no setup node is entered twice. -/
+theorem C11_setup_at_most_once {V : Type} [PyVal V] (ops : List (Op V)) (i : Inst V) (hok : InstOK i)
+    (hwf : ∀ (j : Inst V) (op : Op V), WF (opCfg j op)) (hall : AllSucceed i ops) :
+    (setupEntries i ops).Nodup := VM.C11_setup_at_most_once ops i hok hwf hall
+
+/-- C11: a setup value, once recorded, is never replaced. -/
+theorem C11_first_value_kept {V : Type} [PyVal V] (i : Inst V) (op : Op V) (n : TM.Node) (v : V)
+    (h : i.res n = some v) : (applyOp i op).res n = some v := VM.applyOp_res_keep i op n v h
+
+/-- C15: whatever the history (failing operations included), an instance only ever gains setup results. -/
+theorem C15_no_state_but_setup {V : Type} [PyVal V] (ops : List (Op V)) (i : Inst V) (n : TM.Node)
+    (h : i.dag.isSetup n = false) : (runHistory i ops).res n = i.res n :=
+  VM.runHistory_res_nonsetup ops i n h
+
+/-- C18: a restart seeded with the values a caching run computed computes the same results, and the
+    cached nodes are not part of its execution graph (hence, by C03, never entered). -/
+theorem C18_restart_same {V : Type} [PyVal V] (c : ECfg V) (f : TM.Node → Bool) (hwf : WF c)
+    (hf : ∀ n, f n = true → n ∈ c.nodes) (hfsome : ∀ n, f n = true → ∃ v, den c n = some v) :
+    (∀ x, den (seeded c f) x = den c x) ∧ (∀ n ∈ (seeded c f).nodes, f n = false) :=
+  VM.C18_restart_same c f hwf hf hfsome
+
+/-! ## Threads -/
+open TH
+
+/-- C16: under EVERY interleaving, each thread observes a prefix of what it observes alone (owner-aware test). -/
+theorem C16_owner_safe (progs : Tid → List Act) (hwb : ∀ t, wellBracketed false (progs t) = true)
+    (sched : List Tid) (t : Tid) :
+    ∃ suffix, runSched .owner g0 progs sched (fun _ => []) t ++ suffix = solo .owner g0 t (progs t) :=
+  TH.C16_owner_safe progs hwb sched t
+
+/-- C16 (history): the test the pinned code used is unsafe (fixed in cc99eb5). -/
+theorem C16_pinned_witness :
+    runSched .pinned g0 progsAB [0, 1, 0, 0] (fun _ => []) 1 = [.gotRef] ∧
+    runSched .pinned g0 progsAB [0, 1, 0, 0] (fun _ => []) 0 = [.unit, .gotRef, .built [1003, 7]] :=
+  TH.C16_pinned_witness
+
+example : ∀ t, wellBracketed false (progsAB t) = true := by
+  intro t; unfold progsAB; split
+  · decide
+  · split <;> decide
+
+end Props
